@@ -107,6 +107,8 @@ impl Synchronizer {
                             .duration_since(UNIX_EPOCH)
                             .expect("Failed to measure time")
                             .as_millis();
+                        #[cfg(hotstuff_verif)]
+                        let now = network::simnet::now_millis();
 
                         let mut missing = Vec::new();
                         for digest in digests {
@@ -180,6 +182,8 @@ impl Synchronizer {
                         .duration_since(UNIX_EPOCH)
                         .expect("Failed to measure time")
                         .as_millis();
+                    #[cfg(hotstuff_verif)]
+                    let now = network::simnet::now_millis();
 
                     let mut retry = Vec::new();
                     for (digest, (_, _, timestamp)) in &self.pending {
